@@ -77,6 +77,8 @@ pub struct Prog {
     pub final_directory: bool,
     /// the fault fires only this many times (None = sticky)
     pub fault_budget: Option<u32>,
+    /// matching calls that pass before the fault starts to fire
+    pub fault_skip: u32,
     /// C08 under concurrency: judge the history as linearizable with failed calls optional, and
     /// after the run disarm the fault, reopen and require every acknowledged write to be there
     pub judge_under_fault: bool,
@@ -113,6 +115,7 @@ impl Prog {
             "fault_only_hits_thread": self.fault_thread.map(|t| t + 1),
             "directory_checked_after_final_compaction": self.final_directory,
             "fault_fires_at_most": self.fault_budget,
+            "matching_calls_passing_before_the_fault": self.fault_skip,
             "judged_under_fault_linearizable_and_durable_after_reopen": self.judge_under_fault,
         })
     }
@@ -327,6 +330,7 @@ fn prog_body(prog: &Prog, log: &Arc<Mutex<Vec<Event>>>, stale: &Arc<AtomicU64>) 
     if let Some((classes, suffix)) = prog.fault {
         fs.state().fail_by_suffix = Some((classes, suffix.to_string()));
         fs.state().fail_by_suffix_budget = prog.fault_budget;
+        fs.state().fail_by_suffix_skip = prog.fault_skip;
     }
     let mut handles = vec![];
     for (ti, ops) in prog.threads.iter().enumerate() {
@@ -801,7 +805,7 @@ pub fn judge(prog: &Prog, out: &Outcome, events: &[Event], stale_uses: u64, atom
     for e in events {
         // an injected fault makes errors of the calls legitimate; what is judged then is that
         // every call returned (no deadlock / panic above) and the harness's own final oracles
-        if prog.fault.is_some() && e.thread < 97 {
+        if prog.fault.is_some() && e.thread < 90 {
             continue;
         }
         if let Res::Err(m) = &e.res {
@@ -989,7 +993,16 @@ fn explore_job(prog: &Arc<Prog>, bound: (usize, usize), part: (usize, usize), at
             shm2.add(C_EXECUTIONS, 1);
             shm2.add(C_USER + slot, 1);
             let events = log2.lock().unwrap().clone();
-            shm2.insert_state(hash_history(&events) ^ (slot as u64).wrapping_mul(0x9E3779B97F4A7C15));
+            let is_new = shm2.insert_state(hash_history(&events) ^ (slot as u64).wrapping_mul(0x9E3779B97F4A7C15));
+            if is_new {
+                // development aid: RDBCHECK_DUMP=<file> appends every newly observed history
+                if let Ok(f) = std::env::var("RDBCHECK_DUMP") {
+                    use std::io::Write;
+                    if let Ok(mut fh) = std::fs::OpenOptions::new().create(true).append(true).open(f) {
+                        let _ = writeln!(fh, "{} :: {}", prog2.name, history_str(&events, &prog2.keys).join(" | "));
+                    }
+                }
+            }
             if let Some((clause, detail)) = judge(&prog2, &Outcome::Ok, &events, stale2.load(Ordering::SeqCst), atomic_batches) {
                 record_finding(&shm2, &prog2, &sched2, &clause, &detail, &events);
             }
